@@ -846,6 +846,65 @@ def m_round(ex, callee, args):
     return FP(z3.fpRoundToIntegral(z3.RNA(), a.v))
 
 
+def _ordering(name):
+    return Adt('Ordering', ['Less', 'Equal', 'Greater'].index(name), name, [])
+
+
+@model(r'^<.* as (std::cmp::)?(PartialOrd|Ord)(<.*>)?>::(partial_cmp|cmp)$')
+def m_cmp(ex, callee, args):
+    """numeric (partial_)cmp, by forking on the order; NaN is unordered"""
+    a, b = deref_all(args[0]), deref_all(args[1])
+    partial = callee.endswith('partial_cmp')
+    wrap = some if partial else (lambda x: x)
+    if isinstance(a, FP) and isinstance(b, FP):
+        x, y = _fpv(a), _fpv(b)
+        if ex.branch(z3.Or(z3.fpIsNaN(x), z3.fpIsNaN(y))):
+            if not partial:
+                raise Unsupported('Ord::cmp on floats')
+            return none()
+        if ex.branch(z3.fpLT(x, y)):
+            return wrap(_ordering('Less'))
+        if ex.branch(z3.fpEQ(x, y)):
+            return wrap(_ordering('Equal'))
+        return wrap(_ordering('Greater'))
+    if isinstance(a, BV) and isinstance(b, BV) and a.ty == b.ty and a.ty in INT_TYPES:
+        lt = ex.int_binop('Lt', a, b)
+        if ex.branch(lt):
+            return wrap(_ordering('Less'))
+        if ex.branch(ex.int_binop('Eq', a, b)):
+            return wrap(_ordering('Equal'))
+        return wrap(_ordering('Greater'))
+    f = ex.prog.resolve_call(callee)
+    if f is not None:
+        return ex.call_mir(f, args)
+    raise Unsupported('%s on %r, %r' % (callee, a, b))
+
+
+def _fpv(a):
+    a = deref_all(a)
+    return z3.FPVal(a.v, z3.Float64()) if isinstance(a.v, float) else a.v
+
+
+@model(r'^(core|std)::f64::<impl f64>::(is_finite|is_nan|is_infinite|is_sign_negative|is_sign_positive)$|^f64::<impl f64>::(is_finite|is_nan|is_infinite|is_sign_negative|is_sign_positive)$')
+def m_f64_class(ex, callee, args):
+    v = _fpv(args[0])
+    what = callee.rsplit('::', 1)[1]
+    r = {'is_finite': lambda: z3.Not(z3.Or(z3.fpIsNaN(v), z3.fpIsInf(v))), 'is_nan': lambda: z3.fpIsNaN(v), 'is_infinite': lambda: z3.fpIsInf(v),
+         'is_sign_negative': lambda: z3.fpIsNegative(v), 'is_sign_positive': lambda: z3.fpIsPositive(v)}[what]()
+    r = z3.simplify(r)
+    return True if z3.is_true(r) else (False if z3.is_false(r) else r)
+
+
+@model(r'^(core|std)::f64::<impl f64>::(abs|floor|ceil|trunc|fract)$|^f64::<impl f64>::(abs|floor|ceil|trunc|fract)$')
+def m_f64_unary(ex, callee, args):
+    v = _fpv(args[0])
+    what = callee.rsplit('::', 1)[1]
+    r = {'abs': lambda: z3.fpAbs(v), 'floor': lambda: z3.fpRoundToIntegral(z3.RTN(), v), 'ceil': lambda: z3.fpRoundToIntegral(z3.RTP(), v),
+         'trunc': lambda: z3.fpRoundToIntegral(z3.RTZ(), v),
+         'fract': lambda: z3.fpSub(z3.RNE(), v, z3.fpRoundToIntegral(z3.RTZ(), v))}[what]()
+    return FP(z3.simplify(r))
+
+
 @model(r'^core::str::<impl str>::parse::<f64>$')
 def m_parse_f64(ex, callee, args):
     s = as_str(args[0])
@@ -924,6 +983,8 @@ def parse_int_terms(uni, s, ty):
     key = ('parse_int', ty, S.skey(s))
     ent = uni.memo.get(key)
     if ent is None:
+        bs = [z3.BitVecVal(b, 8) if isinstance(b, int) else b for b in bs]
+
         def isdig(b):
             return z3.And(z3.UGE(b, 0x30), z3.ULE(b, 0x39))
 
@@ -1034,6 +1095,37 @@ def m_opt_as_ref(ex, callee, args):
             return some(Ref(v, 0))
         return some(Ref(v.payload[1], 0))
     return none()
+
+
+def struct_eq(ex, a, b):
+    """derived structural equality of plain data (field-less enums, Option/Result of them, numbers, strings)"""
+    a, b = deref_all(a), deref_all(b)
+    if isinstance(a, Adt) and isinstance(b, Adt):
+        if a.name != b.name or a.variant != b.variant or len(a.items) != len(b.items):
+            return False
+        return b_and(*[struct_eq(ex, x, y) for x, y in zip(a.items, b.items)])
+    if isinstance(a, BV) and isinstance(b, BV):
+        return ex.int_binop('Eq', a, b)
+    if isinstance(a, FP) and isinstance(b, FP):
+        return z3.fpEQ(_fpv(a), _fpv(b))
+    if isinstance(a, (bool, z3.BoolRef)) and isinstance(b, (bool, z3.BoolRef)):
+        return b_not(b_xor(a, b)) if 'b_xor' in globals() else (a == b)
+    if isinstance(a, StrV) and isinstance(b, StrV):
+        return S.s_eq(a.s, b.s)
+    raise Unsupported('structural == of %r and %r' % (a, b))
+
+
+@model(r'^<(std::cmp::Ordering|Option<std::cmp::Ordering>|std::option::Option<std::cmp::Ordering>) as PartialEq(<.*>)?>::eq$')
+def m_plain_eq(ex, callee, args):
+    return struct_eq(ex, args[0], args[1])
+
+
+@model(r'^(std::cmp::|core::cmp::)?Ordering::(is_lt|is_le|is_gt|is_ge|is_eq|is_ne)$')
+def m_ordering_is(ex, callee, args):
+    o = deref_all(args[0])
+    what = callee.rsplit('::', 1)[1]
+    return {'is_lt': o.vname == 'Less', 'is_le': o.vname != 'Greater', 'is_gt': o.vname == 'Greater', 'is_ge': o.vname != 'Less',
+            'is_eq': o.vname == 'Equal', 'is_ne': o.vname != 'Equal'}[what]
 
 
 @model(r'^<.* as PartialEq(<.*>)?>::ne$')
